@@ -100,7 +100,16 @@ def harness(tier, seed):
 
     def const_ctrl(state, t, p, out):
         out[0] = p[0]
+    def drift_eq(state, _, control, out):         # constant drift 5e8: the state passes 1e10 at t = 20 while dx/dt stays small
+        out[0] = 5e8
+        out[1] = -state[1]
+
+    def grow_eq(state, _, control, out):          # x' = 0.5 x: crosses 1e10 at t ~ 46 with dx/dt = 5e9
+        out[0] = 0.5 * state[0]
+        out[1] = -state[1]
     p0 = np.zeros(1)
+    programs += [("drift/zero", drift_eq, zero_ctrl, np.zeros(1), np.array([0.0, 1.0]), 1, 50.0),
+                 ("growth/zero", grow_eq, zero_ctrl, np.zeros(1), np.array([1.0, 1.0]), 1, 50.0)]
     programs += [("linear-decay/zero", lin_eq, zero_ctrl, p0, np.array([1.0, -2.0]), 1, 5.0),
                  ("integrator/const", ctrl_eq, const_ctrl, np.array([0.5]), np.array([0.0, 1.0]), 1, 4.0),
                  ("integrator/blow-now", ctrl_eq, blow_now, p0, np.array([0.0, 1.0]), 1, 5.0),
